@@ -67,8 +67,8 @@ func TestC22Race(t *testing.T) {
 	r.Rule("race phase: one goroutine runs vote-router imports (fresh messages with boundary-biased field sizes towards eth / bsc / ont destinations) that are checked with the release monitor, while 4 goroutines run the same kind of imports on 4 other, completely separate universes (own store / overlay / cache / keys), like RPC pre-executions next to block execution; fixed call counts, no timing in the verdict; evaluation = one monitored accepted import; distinct = (destination, field lengths)")
 	r.Assume("executions on separate universes share only the poly code; every Go race report is a violation (reported by the driver), and so is any monitored import whose stored request or leaf differs from the model")
 	const background = 4
-	nMon := r.N(40, 600)
-	nBg := r.N(40, 600)
+	nMon := r.N(80, 800)
+	nBg := r.N(80, 800)
 	// all universes are built before any goroutine starts (setup writes process-wide configuration)
 	mon := newRaceWorld(r, "mon")
 	var bgs []*raceWorld
